@@ -44,7 +44,7 @@ RULE = (
     "subset of the float leaves requires grad OR nesting >= 2). Distinct by (class path, entry point, requires-grad pattern, "
     "settings cell, rhs shape)."
 )
-BUDGET = {"quick": 460, "thorough": 1500}
+BUDGET = {"quick": 2200, "thorough": 4000}
 ASSUMPTIONS = [
     "float64 only; Zero / Permutation operators are not generated (no float leaves; ZeroLinearOperator declares backward impossible)",
     "stochastic paths (Lanczos-quadrature logdet) are out of scope: logdet / inv_quad_logdet(logdet=True) run with the default "
@@ -287,6 +287,19 @@ def cases(draw, tier):
         # open finding: avoid exactly the trigger -- the same matrix written as a ConstantDiag of ones
         for i, x in enumerate(rs):
             _replace_identity(x, keep_head=(ep != "bilinear"))
+    if "interpolated_rect_base" in trig:
+        # open finding: avoid exactly the trigger -- a square base of size min(p, q), interpolation indices folded into range
+        cfg2 = gen.Cfg(dt="f64", max_dim=5, exclude=ex)
+        cfg2.nested = True
+        for x in rs:
+            for node in R.walk(x):
+                if node["op"] == "Interpolated":
+                    bshp = refmodel.shape(node["base"])
+                    if bshp[-1] != bshp[-2]:
+                        k = min(bshp[-2:])
+                        node["base"] = gen.gen(draw, cfg2, "any", k, k, tuple(bshp[:-2]), draw(st.integers(1, 2)))
+                        for key in ("li", "ri"):
+                            node[key]["lit"] = gen._map2(node[key]["lit"], lambda v: v % k)
     if "interp_all_zero_values" in trig:
         for x in rs:
             for node in R.walk(x):
@@ -1282,7 +1295,27 @@ def _mul_rebuild_reorders(case):
     return False
 
 
+def _interp_permuted(case):
+    """An Interpolated node below a block / batch-sum node whose block_dim is not the last batch dimension: the base is
+    permuted (_permute_batch) and its interpolation tensors become non-contiguous views."""
+    recs = [case["recipe"]] + ([case["recipe2"]] if "recipe2" in case else [])
+
+    def visit(node, permuted):
+        if node["op"] == "Interpolated" and permuted:
+            return True
+        if node["op"] in ("BlockDiag", "BlockInterleaved", "SumBatch") and "block_dim" in node:
+            nd = len(refmodel.shape(node["base"]))
+            bd = node["block_dim"]
+            if (bd if bd < 0 else bd - nd) != -3:
+                permuted = True
+        return any(visit(ch, permuted) for ch in R.children(node))
+
+    return any(visit(x, False) for x in recs)
+
+
 def _interp_rect_base(case):
+    if case["ep"] == "getitem" and case.get("index_kind") in ("tensor", "int_row"):
+        return True  # tensor-indexing builds an InterpolatedLinearOperator over the (possibly rectangular) indexed operator
     recs = [case["recipe"]] + ([case["recipe2"]] if "recipe2" in case else [])
     for x in recs:
         for n in R.walk(x):
@@ -1378,6 +1411,7 @@ TRIGGERS = {
     "identity_derivative_arity": _identity_arity,
     "mul_rebuild_reorders": _mul_rebuild_reorders,
     "interpolated_rect_base": _interp_rect_base,
+    "interpolated_permuted_batch": _interp_permuted,
 }
 
 
